@@ -264,4 +264,17 @@ def check(ctx):
                     return t[0] == "tuple" and len(t[1]) == 2 and norm(strip_casts(t[1][1])) == norm(want_idx) and norm(strip_casts(strip_casts(t[1][0])[2][0])) == norm(want_idx) if strip_casts(t[1][0])[0] == "call" else False
                 okr = pair_ok(a, pair["Fixed"][0]) and pair_ok(b_, pair["Dynamic"][0])
             ctx.ob("R09.6", f"{k}|returns-old-then-new", okr, site, "returns ((stream over the old id, old id), (stream over the new id, new id))")
+    # ------------------------------------------------------------------ R09.7 a parked subscriber is told about what was published (C04's wake-site rules on the log channel)
+    # ('a subscriber yields every event of its range': a listener that subscribed, saw nothing yet and parked must be woken by the publication -- the log channel's
+    #  sends wake EVERY live listener AFTER the event became visible, and the set of listeners they wake is read after the publication)
+    import importlib
+    C04 = importlib.import_module("props.C04")
+    sub = util.fresh_ctx(ctx, "C04")
+    C04.check(sub)
+    n7 = 0
+    for o in sub.obs:
+        if o["rule"] in ("R04.3", "R04.5", "R04.6") and "mmap_log" in o["key"]:
+            n7 += 1
+            ctx.ob("R09.7", o["key"], o["ok"], o["site"], o["detail"], o["nontrivial"])
+    ctx.floor("R09.7", 6)
     ctx.floor("R09.1", 6); ctx.floor("R09.2", 5); ctx.floor("R09.3", 8); ctx.floor("R09.4", 2); ctx.floor("R09.6", 3)
